@@ -311,7 +311,7 @@ theorem text_update_marks (s : FState) (hb : Base s.ph) (segs : List Seg) (hn : 
   have hpl : ∀ d ∈ segs, PlainFor s.ph d.text := fun d hd => plainFor_of_low s.ph ha _ (hl d hd)
   refine ⟨by simpa using emit_eq s segs hn hpl [], ?_⟩
   have hG := good_forest s.ph hb segs hn hl
-  obtain ⟨rs, nrs, prs, crs⟩ := hG.forest ha
+  obtain ⟨rs, nrs, prs, crs⟩ := hG.forest ha hb.tok hb.closed
   have hAK := hG.altOK ha
   have ht0 : PlainFor s.ph (altOf segs).1 := by
     rw [altOf_fst]; exact plainFor_of_low s.ph ha _ (low_front segs hl)
